@@ -408,6 +408,9 @@ func (s *gridScreen) rawWriteRunes(x int, y int, b []rune, cr ChangeReason) {
 	if y >= s.size.Y || x+len(b) > s.size.X {
 		panic(fmt.Sprintf("rawWriteBytes out of range: %v  %v,%v,%v %v %#v, %v,%v\n", s.size, x, y, x+len(b), len(b), string(b), len(s.chars), len(s.chars[0])))
 	}
+	if len(b) > 0 {
+		s.clearWideEdges(y, x, x+len(b))
+	}
 	textRow := s.cellText[y]
 	widthRow := s.cellWidth[y]
 	contRow := s.cellCont[y]
@@ -432,9 +435,7 @@ func (s *gridScreen) rawWriteRune(x int, y int, r rune, width int, cr ChangeReas
 	if y >= s.size.Y || x+width > s.size.X {
 		panic(fmt.Sprintf("rawWriteRune out of range: %v  %v,%v,%v %v %#v\n", s.size, x, y, x+width, width, string(r)))
 	}
-	if s.cellCont[y][x] {
-		s.clearWideAt(y, x)
-	}
+	s.clearWideEdges(y, x, x+width)
 
 	prevWidth := int(s.cellWidth[y][x])
 	if prevWidth < 1 {
@@ -491,6 +492,18 @@ func (s *gridScreen) clearWideAt(y int, x int) {
 	}
 	s.rawWriteStyles(y, base, end)
 	s.frontend.RegionChanged(Region{Y: y, Y2: y + 1, X: base, X2: end}, CRClear)
+}
+
+// clearWideEdges blanks the wide characters a write to cells [x1, x2) would
+// leave half-overwritten: one reaching into x1 from the left and one whose
+// tail reaches past x2.
+func (s *gridScreen) clearWideEdges(y int, x1 int, x2 int) {
+	if x1 < s.size.X && s.cellCont[y][x1] {
+		s.clearWideAt(y, x1)
+	}
+	if x2 < s.size.X && s.cellCont[y][x2] {
+		s.clearWideAt(y, x2)
+	}
 }
 
 func runeCellWidth(r rune) int {
